@@ -357,6 +357,15 @@ func (b *Batch) RunGo(jobs []Job, f func(o *Out)) error {
 				hungJob = o.Job
 				o.Kind = "run"
 				o.Res = &rt.Result{Class: "hang", Panic: "the generated parser does not return (no lexer call, no action for 8 s)"}
+				f(&o)
+				// the remaining inputs of that job are not run
+				if hungJob >= 0 && hungJob < len(pending) {
+					rest := pending[hungJob].Inputs
+					for k := o.Pos + 1; k < len(rest); k++ {
+						f(&Out{Pkg: o.Pkg, Input: rest[k], Kind: "run", Res: &rt.Result{Class: "not-run"}, Job: hungJob, Pos: k})
+					}
+				}
+				continue
 			}
 			f(&o)
 		}
